@@ -82,6 +82,13 @@ def dense_matrix(spec):
     elif sym == "psd":
         B = rnd(n, n)
         M = B @ B.conj().T / n + np.eye(n)
+    elif sym == "psd_singular":  # Gram matrix of rank n-1: positive semi-definite only up to round-off
+        B = rnd(n, max(n - 1, 1))
+        M = B @ B.conj().T / n
+        if n == 1:
+            M = M * 0
+    elif sym == "zero":
+        M = np.zeros((n, n))
     elif sym == "tril":
         M = np.tril(rnd(n, n)) + 2 * np.eye(n)
     elif sym == "triu":
